@@ -2,7 +2,7 @@ from copy import copy
 
 import sqlalchemy as sa
 from sqlalchemy_utils import get_primary_keys, identity
-from .operation import Operations
+from .operation import Operation, Operations
 from .utils import (
     end_tx_column_name,
     version_class,
@@ -401,6 +401,45 @@ class UnitOfWork(object):
         """
         return self.operations or self.pending_statements
 
+    def row_switch_values(self, parent_obj):
+        """
+        Return the stored values of the attributes given parent object never
+        set if it took over the row of an object deleted in the same flush.
+
+        SQLAlchemy turns the DELETE of one object and the INSERT of another
+        one with the same primary key within one flush into an UPDATE that
+        only sets what the new object sets. The other columns keep the old
+        row's values although the new object shows None for them (it is
+        still pending while the versions are made).
+        """
+        state = sa.inspect(parent_obj)
+        if not state.pending or parent_obj not in self.operations:
+            return {}
+        operation = self.operations[self.operations.format_key(parent_obj)]
+        if operation.type != Operation.UPDATE or operation.target is not parent_obj:
+            return {}
+        mapper = state.mapper
+        missing = [
+            prop for prop in versioned_column_properties(parent_obj)
+            if prop.key not in state.dict
+        ]
+        if not missing:
+            return {}
+        row = self.version_session.execute(
+            sa.select(*[prop.columns[0] for prop in missing])
+            .select_from(mapper.selectable)
+            .where(sa.and_(*[
+                column == value
+                for column, value in zip(
+                    mapper.primary_key,
+                    mapper.primary_key_from_instance(parent_obj)
+                )
+            ]))
+        ).first()
+        if row is None:
+            return {}
+        return dict(zip([prop.key for prop in missing], row))
+
     def assign_attributes(self, parent_obj, version_obj):
         """
         Assign attributes values from parent object to version object.
@@ -410,7 +449,11 @@ class UnitOfWork(object):
         :param version_obj:
             Version object to assign the attribute values to
         """
+        stored = self.row_switch_values(parent_obj)
         for prop in versioned_column_properties(parent_obj):
+            if prop.key in stored:
+                setattr(version_obj, prop.key, stored[prop.key])
+                continue
             try:
                 value = getattr(parent_obj, prop.key)
             except (sa.orm.exc.ObjectDeletedError, KeyError):
